@@ -634,7 +634,8 @@ func (c *lchain) process(b types.Block, bs consensus.V1BlockSupplement, apply bo
 			r.violate("c09.apply-mutates", "ApplyBlock modified its inputs (%s block at child height %d)", class, c.child())
 		}
 	}
-	step := append([]string{op}, blockToks(cs, b, bs, hcode, nextMedian, c.proofOKFn())...)
+	btoks, kindsOK := blockToks(cs, b, bs, hcode, nextMedian, c.proofOKFn())
+	step := append([]string{op}, btoks...)
 	c.steps = append(c.steps, step...)
 	c.nsteps++
 	r.count("block-" + class)
@@ -661,6 +662,13 @@ func (c *lchain) process(b types.Block, bs consensus.V1BlockSupplement, apply bo
 		natt += len(txn.Attestations)
 	}
 	c.want = append(c.want, hx(uint64(natt)))
+	// the ID discipline of Ledger/Kinds.v, computed here from the typed IDs and by the model from the block it parsed
+	c.want = append(c.want, hbool(kindsOK))
+	if kindsOK {
+		r.count("ids-name-one-kind")
+	} else {
+		r.count("ids-name-two-kinds")
+	}
 	c.oraclesAfterApply(cs, ns, b, bs, au, st)
 	c.states = append(c.states, ns)
 	c.stores = append(c.stores, st)
